@@ -80,9 +80,8 @@ class Replayer(object):
         steps ; out_edges: model state id -> set of threads with an edge.
         Returns (validated steps, mismatch or None)"""
         from . import c20
-        rw = c20.rw_module()
         sc = S.Sched(trace_files=("_rwlock.py",), mutable_fields=self.fields)
-        rw.threading = S.ThreadingShim(sc)
+        rw = c20.load_rw(sc)
         lock = rw.RWLock()
         names = {}
         try:
